@@ -320,6 +320,22 @@ def check(run):
     cases, meta = build_cases(run, rng, 8 if quick else 80, 16 if quick else 24, ndocs=(4, 9), worldgen=near_phrase_world)
     rejects = qobs.judge(run, cases, name="QueryCheck-nearphrase")
     report(run, "C01", cases, meta, rejects, "c01-nearphrase")
+    # terms that start with letters beyond the basic plane (and with an accented one): open-ended term ranges,
+    # prefixes and patterns over them
+    def astral(r):
+        if r.random() < 0.4:
+            # a range that is open at the top (or at the bottom), starting anywhere in the alphabet
+            lo = world.rand_term(r, 6, 2)
+            q = {"op": "termrange", "f": r.choice(world.TEXT_FIELDS), "lo": lo, "hi": lo, "haslo": True, "hashi": False,
+                 "loexcl": r.random() < 0.3, "hiexcl": False, "b4": 4}
+            if r.random() < 0.25:
+                q.update(haslo=False, hashi=True)
+            return q if r.random() < 0.7 else {"op": "not", "q": q}
+        return world.rand_query(r, r.randrange(0, 2), nletters=6,
+                                ops=["term", "termrange", "prefix", "wildcard", "regex", "and", "or", "not", "andnot"])
+    cases, meta = build_cases(run, rng, 4 if quick else 40, 16 if quick else 24, ndocs=(5, 10), nletters=6, qgen=astral)
+    rejects = qobs.judge(run, cases, name="QueryCheck-astral")
+    report(run, "C01", cases, meta, rejects, "c01-astral")
     # nested (parent / child) queries
     # (Query.docs() evaluates over the whole index at once, where "the parent before a document" can lie in
     # another segment; documents without a parent in their own segment only exist in generated data, so
